@@ -76,6 +76,8 @@ Fixpoint closell (tol : Q) (a b : list (list Q)) : bool :=
   | _, _ => false
   end.
 Definition lenb (n : nat) (l : list Q) : bool := Nat.eqb (length l) n.
+Fixpoint map2q (f : Q -> Q -> Q) (a b : list Q) : list Q :=
+  match a, b with x :: a', y :: b' => f x y :: map2q f a' b' | _, _ => [] end.
 
 (* ------------------------------------------------------------------ cases *)
 Inductive case :=
@@ -104,7 +106,15 @@ Inductive case :=
 (* box (c,e) grown by box (bc,be) -> (c2,e2) *)
 | CBoxBox (tol : Q) (c e bc be c2 e2 : list Q) (probes : list (list Q * (bool * (bool * bool))))
 (* cp = ClosestPoint (c,e) v; inside = Contains (c,e) cp; probes: points of the box *)
-| CClosest (tol : Q) (c e v cp : list Q) (inside : bool) (probes : list (list Q)).
+| CClosest (tol : Q) (c e v cp : list Q) (inside : bool) (probes : list (list Q))
+(* (c,e) = NewAABBFromPoints pts (at least one point); contains = the implementation's Contains on every point *)
+| CBoxFrom (tol : Q) (pts : list (list Q)) (c e : list Q) (contains : list bool)
+(* array-level entry points on LARGE arrays (size-dependent code paths: chunking, worker pools).  The harness ran
+   the array-level function (op as in CMesh; which of Mesh.*, TRS.TransformArray/InPlace, Quaternion.RotateArray is in
+   the case description) on n points and compared EVERY element with the scalar entry point in Go:
+   mismatches = number of differing elements, len_ok = output length = n.  samples = (input point, array output)
+   at a few indices (first, last, chunk boundaries, first mismatch) — evaluated here against the translated code. *)
+| CBig (tol : Q) (op : nat) (n mismatches : N) (len_ok : bool) (p s q : list Q) (samples : list (list Q * list Q)).
 
 (* ------------------------------------------------------------------ model vs implementation *)
 Definition corr_ok (k : case) : bool :=
@@ -164,6 +174,24 @@ Definition corr_ok (k : case) : bool :=
        else true)
   | CClosest tol c e v cp inside probes =>
       closel tol (v3_to (Aabb.AABB_ClosestPoint (box_of c e) (v3_of v))) cp
+  | CBoxFrom tol pts c e contains =>
+      (* hand-written model of the loop: componentwise min / max, then area = max - min, NewAABB(area/2 + min, area) *)
+      match pts with
+      | [] => true
+      | p0 :: _ =>
+          let lo := fold_left (fun a x => map2q Qminb a x) pts p0 in
+          let hi := fold_left (fun a x => map2q Qmaxb a x) pts p0 in
+          let ext := map (fun d => d * (1 # 2))%Q (map2q Qminus hi lo) in
+          closel tol (map2q Qplus ext lo) c && closel tol ext e
+      end
+  | CBig tol op n mismatches len_ok p s q samples =>
+      let f := match op with
+               | 0 => Quat.Quaternion_Rotate (quat_of q)
+               | 1 => fun x => v3_add x (v3_of p)
+               | 2 => fun x => v3_mult_by_vector x (v3_of s)
+               | _ => Trs.TRS_Transform (Trs.New (v3_of p) (quat_of q) (v3_of s))
+               end in
+      forallb (fun io => closel tol (v3_to (f (v3_of (fst io)))) (snd io)) samples
   end.
 
 (* ------------------------------------------------------------------ the property on the implementation's output *)
@@ -233,4 +261,24 @@ Definition prop_ok (k : case) : bool :=
       lenb 3 cp && in_box_tol tol c e cp && (if Qeq_bool tol 0 then inside else true) &&
       (if in_box_strict tol c e v then closel tol cp v else true) &&
       forallb (fun pr => implb (in_box_tol 0 c e pr) (Qle_bool (qdist2 v cp) (qdist2 v pr + tol))) probes
+  | CBoxFrom tol pts c e contains =>
+      lenb 3 c && lenb 3 e && negb (Nat.eqb (length pts) 0) &&
+      (* every point is in the box (by the specification and by the implementation's own Contains) ... *)
+      forallb (in_box_tol tol c e) pts &&
+      (if Qeq_bool tol 0 then Nat.eqb (length contains) (length pts) && forallb (fun b => b) contains else true) &&
+      (* ... and the box is tight: every face touches a point *)
+      forallb (fun i => existsb (fun pt => close tol (qn pt i) (qn c i - qn e i)) pts &&
+                        existsb (fun pt => close tol (qn pt i) (qn c i + qn e i)) pts)%Q [0; 1; 2]
+  | CBig tol op n mismatches len_ok p s q samples =>
+      (* array-level = pointwise scalar entry point on every element, nothing dropped *)
+      len_ok && N.eqb mismatches 0 &&
+      forallb (fun io =>
+        let x := v3_of (fst io) in
+        closel tol (snd io)
+          (v3_to match op with
+                 | 0 => rotate_spec (quat_of q) x
+                 | 1 => v3_add x (v3_of p)
+                 | 2 => v3_mult_by_vector x (v3_of s)
+                 | _ => trs_spec (v3_of p) (v3_of s) (quat_of q) x
+                 end)) samples
   end.
